@@ -1212,6 +1212,33 @@ func main() {
 	defer out.Flush()
 	st := newStats()
 	switch os.Args[1] {
+	case "wrap16":
+		// known finding (C03): 65536 one-byte allocations on one 64 KiB granularity page wrap the
+		// handler's uint16 page counter to 0; Validate then reports an inconsistency that is not there
+		gh := vam.VerifNewGranularityHandler(65536, 131072)
+		md := metadata.NewTLSFBlockMetadata(65536, gh)
+		md.Init(131072)
+		n := 65536
+		if len(os.Args) > 2 {
+			n, _ = strconv.Atoi(os.Args[2])
+		}
+		for i := 0; i < n; i++ {
+			ok, req, err := md.CreateAllocationRequest(1, 1, false, 2, 0, math.MaxInt)
+			if err != nil || !ok {
+				fmt.Fprintf(out, "alloc %d refused\n", i)
+				break
+			}
+			if err := md.Alloc(req, 2, i); err != nil {
+				fmt.Fprintf(out, "alloc %d failed\n", i)
+				break
+			}
+		}
+		verr := md.Validate()
+		fmt.Fprintf(out, "allocations=%d count=%d validate_ok=%v\n", n, md.AllocationCount(), verr == nil)
+		if verr != nil {
+			fmt.Fprintf(out, "ORACLE-FAIL property=C03 sig=tlsf:validate:uint16-page-counter-wrap step=%d %v\n", n, verr)
+		}
+		return
 	case "gen":
 		fs := flag.NewFlagSet("gen", flag.ExitOnError)
 		algo := fs.String("algo", "tlsf", "")
